@@ -40,7 +40,8 @@ func (p *PathBuilder) String() string {
 	sb := NewStringBuilder()
 	defer FreeStringBuilder(sb)
 	for i, v := range *p {
-		if i > 0 && (*p)[i-1] != "" && v[0] != '[' {
+		// len(v) == 0: a field may be keyed by the empty string (e.g. a `zog:""` tag)
+		if i > 0 && (*p)[i-1] != "" && (len(v) == 0 || v[0] != '[') {
 			sb.WriteString(".")
 		}
 		sb.WriteString(v)
